@@ -6,6 +6,7 @@ import ZarrsModel.Driver.C08
 import ZarrsModel.Driver.C09
 import ZarrsModel.Driver.C10
 import ZarrsModel.Driver.C11
+import ZarrsModel.Driver.C13
 import ZarrsModel.Driver.C14
 import ZarrsModel.Driver.C15
 import ZarrsModel.Driver.C16
@@ -29,6 +30,7 @@ structure DState where
   c08 : DriverC08.St := {}
   c15 : DriverC15.St := {}
   c16 : DriverC16.St := {}
+  c13 : DriverC13.St := {}
 
 /-- new state, acceptable outcomes (`any` accepts everything), optional note -/
 def dispatch (st : DState) (l : Line) : Option (DState × List String × Option String) :=
@@ -49,6 +51,7 @@ def dispatch (st : DState) (l : Line) : Option (DState × List String × Option 
   | some "c20" => (DriverC20.handle st.c01 l).map (fun (s, a, n) => ({ st with c01 := s }, a, n))
   | some "c19" => (DriverC19.handle l).map (fun a => (st, a, none))
   | some "c11" => (DriverC11.handle l).map (fun m => (st, [m], none))
+  | some "c13" => (DriverC13.handle st.c13 l).map (fun (s, a, n) => ({ st with c13 := s }, a, n))
   | some "c14" => (DriverC14.handle l).map (fun a => (st, a, none))
   | _ => none
 
